@@ -375,6 +375,40 @@ func monC12(c *drv.Ctx) {
 				}
 				cs.C.Obs("truncated exception bodies", 1)
 			}
+			// the exception body as other Thrift implementations write it: the two fields in the other order, an
+			// unknown field in front, an empty message left out altogether - the same exception
+			{
+				fMsg := ref.EncString(ref.EncFieldBegin(nil, ref.STRING, 1), text)
+				fTid := ref.EncI32(ref.EncFieldBegin(nil, ref.I32, 2), tid)
+				fUnk := ref.EncI64(ref.EncFieldBegin(nil, ref.I64, 9), 77)
+				bodies := map[string][]byte{
+					"type id before message":   append(append(append([]byte(nil), fTid...), fMsg...), 0),
+					"unknown field in front":   append(append(append(append([]byte(nil), fUnk...), fMsg...), fTid...), 0),
+					"unknown field in between": append(append(append(append([]byte(nil), fTid...), fUnk...), fMsg...), 0),
+				}
+				if text == "" {
+					bodies["empty message left out"] = append(append([]byte(nil), fTid...), 0)
+				}
+				for name, body := range bodies {
+					msg := append(append([]byte(nil), b[:hdr]...), body...)
+					v5 := &base.BaseResp{StatusMessage: "untouched", StatusCode: 99}
+					_, _, err5 := thrift.UnmarshalFastMsg(place(msg, 0), v5)
+					var ae5 *thrift.ApplicationException
+					if !errors.As(err5, &ae5) || ae5.TypeID() != tid || ae5.Msg() != text {
+						d := M{"err": errString(err5), "want_type": tid, "want_msg": text, "body_hex": hexOf(body)}
+						if ae5 != nil {
+							d["got_type"], d["got_msg"] = ae5.TypeID(), ae5.Msg()
+						}
+						cs.Fail("exception-content", M{"body": name}, d)
+						break
+					}
+					if v5.StatusMessage != "untouched" || v5.StatusCode != 99 {
+						cs.Fail("exception-decoded-into-struct", M{"via": name}, M{"victim": fmt.Sprint(v5)})
+						break
+					}
+					cs.C.Obs("exception bodies in other field orders", 1)
+				}
+			}
 			// the payload of an EXCEPTION message may be any of the library's exception kinds (they share the
 			// encoding): what comes back carries the payload's type id and text
 			for k := 0; k < 3; k++ {
@@ -565,4 +599,3 @@ func (n *chainNode) equal(o *chainNode) bool {
 	}
 	return n == nil && o == nil
 }
-
